@@ -13,7 +13,7 @@ Extraction "model.ml"
   is_incomplete2 is_complete2
   utf8_valid parse_u16 parse_ipv4 parse_ipv6 fmt_dec fmt_ipv4 fmt_ipv6
   p1 p1s addresses_from_str header_from_str h1_protocol addrs_protocol h1_addresses_str h1_to_string h1_to_owned fmt1
-  is_incomplete1 is_incomplete1s pa is_incomplete_a is_complete_a drain frame_bytes
+  is_incomplete1 is_incomplete1s pa is_incomplete_a is_complete_a drain frame_bytes on_read
   ip_new v1_of_ip4 v1_of_ip6 v2_of_ip4 v2_of_ip6 new_tcp4 new_tcp6 unix_new v1_of_pair v2_of_pair header1_new type_code
   d_v1b d_v1s d_v2 d_auto d_tlv
   write_to to_bytes brun z_of_digits item_ok_b item_payload_b
